@@ -241,14 +241,22 @@ impl Ldap {
         // away with its last sender - this handle. Nobody will answer it; seeing the channel
         // closed is then all that can end the wait.
         let op_tx = self.tx.clone();
+        let mut rx = rx;
         let answer = async move {
             tokio::select! {
                 biased;
-                res = rx => res,
+                res = &mut rx => res,
                 _ = op_tx.closed() => {
-                    let (gone, never) = oneshot::channel();
-                    drop(gone);
-                    never.await
+                    // The connection task hands a response over before it drops its end of
+                    // the channel: one more look tells whether that happened in between.
+                    match rx.try_recv() {
+                        Ok(response) => Ok(response),
+                        Err(_) => {
+                            let (gone, never) = oneshot::channel();
+                            drop(gone);
+                            never.await
+                        }
+                    }
                 }
             }
         };
